@@ -89,10 +89,14 @@ def main():
             if keep in prev and keep not in meta:
                 meta[keep] = prev[keep]
     meta["verif_commit"] = sh(["git", "-C", VERIF, "rev-parse", "--short", "HEAD"]).stdout.strip()
-    shutil.copy(diff, os.path.join(out, "patch.diff"))
-    shutil.copy(demo, os.path.join(out, "demo.py"))
+    def _cp(src, dst):
+        if os.path.abspath(src) != os.path.abspath(dst):
+            shutil.copy(src, dst)
+
+    _cp(diff, os.path.join(out, "patch.diff"))
+    _cp(demo, os.path.join(out, "demo.py"))
     if notes and os.path.exists(notes):
-        shutil.copy(notes, os.path.join(out, "notes.md"))
+        _cp(notes, os.path.join(out, "notes.md"))
         meta["needs_to_manifest"] = open(notes).read()[:1500]
     json.dump(meta, open(os.path.join(out, "meta.json"), "w"), indent=1)
     print(json.dumps({k2: v for k2, v in meta.items() if k2 != "needs_to_manifest"}, indent=1)[:1800])
